@@ -39,9 +39,21 @@ def check(ctx):
         txt = open(f).read()
         reports += [r for r in txt.split("==================") if "DATA RACE" in r]
     # distinct by the code locations involved
+    lib = lambda l: (REPO.rstrip("/") + "/") in l or "jrhy/mast" in l
     def sig(r):
+        """Library locations of a report - but only if one of the two conflicting accesses is itself made by library code (the
+        innermost frame of its stack); two accesses made by harness code (say, inside a callback the library invokes) are a race of
+        the harness, whatever library frames lie further out."""
+        tops = []
+        for blk in re.split(r"\n\s*\n", r):
+            if re.search(r"^\s*(Read|Write|Previous read|Previous write|Atomic \w+|Previous atomic \w+) at ", blk, re.M | re.I):
+                locs = re.findall(r"^\s+(/\S+?\.go:\d+)", blk, re.M)
+                if locs:
+                    tops.append(locs[0])
+        if tops and not any(lib(t) for t in tops):
+            return ()
         locs = re.findall(r"^\s+(/\S+?\.go:\d+)", r, re.M)
-        return tuple(l for l in locs if (REPO.rstrip("/") + "/") in l or "jrhy/mast" in l)[:4]
+        return tuple(l for l in locs if lib(l))[:4]
     by_sig = {}
     harness_only = 0
     for r in reports:
@@ -49,8 +61,8 @@ def check(ctx):
             harness_only += 1      # no library location involved: a race inside the harness is not a verdict about the library
             continue
         by_sig.setdefault(sig(r), r)
-    if harness_only and not by_sig:
-        raise Undecided("the race detector reported %d race(s) that involve only harness code" % harness_only)
+    if harness_only:
+        log("  note: %d race report(s) whose conflicting accesses are both made by harness code (not a verdict about the library; ignored)" % harness_only)
     # as-if-alone: every goroutine's history against TraceMast
     files, chunks, start, reps = validate_parallel(ctx, "TraceMast.tla", "TraceMast.cfg", trace, 4 if quick else 14)
     stat, viols = {}, []
